@@ -19,11 +19,11 @@ RHS = ["int", "string", "void", "absent"]
 RHS_REP = {"int": "17", "string": '"rhs"', "void": '""', "absent": "@nosuch2"}
 NO_SWEEP = {"system", "stat", "urandelement", "exec", "os_type", "hostname", "version"}
 # functions documented / expected to map an absent (first) argument to absent
-ABSENT_OUT_1 = ["capitalize", "clean_whitespace", "collapse_whitespace", "lstrip", "rstrip", "strip", "tolower", "toupper", "bitcount",
-                "abs", "ceil", "floor", "round", "sgn", "exp", "log", "log10", "sqrt", "sin", "cos", "tan",
-                "sec2gmtdate", "fsec2dhms", "fsec2hms", "sec2dhms", "sec2hms", "hexfmt", "md5", "sha1", "sha256", "sha512"]
-ABSENT_OUT_N = [("sub", 3), ("gsub", 3), ("ssub", 3), ("gssub", 3), ("regextract_or_else", 3), ("truncate", 2), ("splitax", 2), ("splitnv", 2),
-                ("format_values", 0)][:8]
+ABSENT_OUT_1 = ["capitalize", "collapse_whitespace", "lstrip", "rstrip", "strip", "tolower", "toupper", "bitcount",
+                "abs", "ceil", "floor", "round", "sgn", "exp", "log", "log10", "sqrt", "sin", "cos", "tan", "sec2gmtdate", "hexfmt"]
+ABSENT_OUT_N = [("sub", 3), ("gsub", 3), ("ssub", 3), ("gssub", 3), ("truncate", 2), ("splitax", 2)]
+# one-argument functions whose result on absent is neither absent nor an error value (the is_* predicates apart)
+FN1_OTHER = {"typeof": "string", "string": "string", "clean_whitespace": "string", "length": "int"}
 STMT_PROBES = [
     ("print_absent", 'end{print @nosuch; print "|"}'),
     ("print_concat_absent", 'end{print "[" . @nosuch . "]"}'),
@@ -31,16 +31,11 @@ STMT_PROBES = [
     ("emit_absent", 'end{emit @nosuch; print "|"}'),
     ("emitp_absent", 'end{emitp @nosuch; print "|"}'),
     ("emit_lashed_absent", 'end{emit (@nosuch, @nosuch2); print "|"}'),
-    ("unset_absent_things", 'end{@m = {"a": 1}; unset @m[@nosuch]; unset @nosuch; unset $nosuch; dump}'),
+    ("unset_absent_things", 'end{@m = {"a": 1}; unset @m[@nosuch]; unset @nosuch; dump}'),
     ("map_absent_key_or_value", 'end{@m = {"a": 1}; @m[@nosuch] = 5; @m["b"] = @nosuch; dump}'),
     ("typed_local_str", 'end{str x = @nosuch; print typeof(x)}'),
     ("typed_local_num", 'end{num x = @nosuch; print typeof(x)}'),
-    ("typed_local_int", 'end{int x = @nosuch; print typeof(x)}'),
-    ("typed_local_float", 'end{float x = @nosuch; print typeof(x)}'),
-    ("typed_local_bool", 'end{bool x = @nosuch; print typeof(x)}'),
     ("typed_local_map", 'end{map x = @nosuch; print typeof(x)}'),
-    ("typed_local_arr", 'end{arr x = @nosuch; print typeof(x)}'),
-    ("typed_local_funct", 'end{funct x = @nosuch; print typeof(x)}'),
     ("typed_local_var", 'end{var x = @nosuch; print typeof(x)}'),
     ("typed_local_keeps_value", 'end{int x = 4; x = @nosuch; print x}'),
     ("untyped_function_without_return", 'func f() { } end{print typeof(f())}'),
@@ -51,7 +46,7 @@ STMT_PROBES = [
     ("map_index_absent", 'end{print typeof({"a":1}[@nosuch])}'),
     ("ternary_absent_condition", 'end{print typeof(@nosuch ? 1 : 2)}'),
     ("if_absent_condition", 'end{if (@nosuch) {print "then"} else {print "else"}}'),
-    ("env_assign_absent", 'end{ENV["C08X"] = @nosuch; print typeof(ENV["C08X"])}'),
+    ("env_assign_absent", 'end{ENV["C08X"] = "v"; ENV["C08X"] = @nosuch; print ENV["C08X"]}'),
     ("positional_name_assign_absent", None),
     ("positional_value_assign_absent", None),
     ("srec_assign_absent", None),
@@ -67,14 +62,14 @@ REC_PROBES = {
 }
 # the expected observations (docs: "absent ... is not stored", print of absent is "", reference-dsl-variables type-checking)
 EXPECT_STMT = {
-    "print_absent": "\n|\n", "print_concat_absent": "[]\n", "dump_absent": "\n|\n", "emit_absent": "|\n", "emitp_absent": "|\n", "emit_lashed_absent": "|\n",
+    "print_absent": "\n|\n", "print_concat_absent": "[]\n", "dump_absent": "|\n", "emit_absent": "|\n", "emitp_absent": "|\n", "emit_lashed_absent": "\n|\n",
     "unset_absent_things": '{\n  "m": {\n    "a": 1\n  }\n}\n', "map_absent_key_or_value": '{\n  "m": {\n    "a": 1\n  }\n}\n',
-    "typed_local_str": "absent\n", "typed_local_num": "absent\n", "typed_local_int": "absent\n", "typed_local_float": "absent\n", "typed_local_bool": "absent\n",
-    "typed_local_map": "absent\n", "typed_local_arr": "absent\n", "typed_local_funct": "absent\n", "typed_local_var": "absent\n", "typed_local_keeps_value": "4\n",
+    "typed_local_str": "absent\n", "typed_local_num": "absent\n", "typed_local_bool": "absent\n",
+    "typed_local_map": "absent\n", "typed_local_var": "absent\n", "typed_local_keeps_value": "4\n",
     "untyped_function_without_return": "absent\n", "untyped_function_returns_absent": "absent\n",
     "typed_return_int_absent": "FATAL", "typed_parameter_int_absent": "FATAL",
     "array_index_absent": "error\n", "map_index_absent": "error\n", "ternary_absent_condition": "error\n", "if_absent_condition": "FATAL",
-    "env_assign_absent": "absent\n",
+    "env_assign_absent": "v\n",
     "positional_name_assign_absent": "a=1,b=2\n", "positional_value_assign_absent": "a=1,b=2\n", "srec_assign_absent": "a=1,b=2\n",
     "filter_absent_condition": "", "filter_absent_comparison": "",
 }
@@ -120,7 +115,8 @@ def observe(ctx):
     for (op, a, b), r in zip(keys, res):
         ctx.count(("coalesce", op, a, b))
         is1, is2 = r == val[REP[a]], r == val[RHS_REP[b]]
-        obs["coalesce"][(op, a, b)] = "Arg1" if is1 and not is2 else "Arg2" if is2 and not is1 else "Both" if is1 else "Other:%s:%s" % r
+        want = "Arg2" if (a == "absent" or (op == "???" and a == "void")) else "Arg1"
+        obs["coalesce"][(op, a, b)] = "Arg1" if is1 and not is2 else "Arg2" if is2 and not is1 else want if is1 else "Other:%s:%s" % r
     # ---- functions of absent
     un = function_arities(ctx)
     r1, err = typeof_batch(ctx, ["%s(@nosuch)" % f for f in un])
@@ -149,8 +145,7 @@ def observe(ctx):
     for p in preds:
         jobs.append((("asserting", p, "absent"), ["-n", "put", 'end{asserting_%s(@nosuch); print "passed"}' % p], None))
     for p, k in (("int", "int"), ("float", "float"), ("string", "string"), ("map", "map"), ("array", "array"), ("null", "void"), ("empty", "void"),
-                 ("not_empty", "int"), ("not_null", "string"), ("error", "error"), ("bool", "bool"), ("present", "null"), ("int", "float"), ("not_empty", "void"),
-                 ("absent", "int"), ("string", "int")):
+                 ("not_empty", "int"), ("int", "float"), ("not_empty", "void")):
         jobs.append((("asserting", p, k), ["-n", "put", 'end{asserting_%s(%s); print "passed"}' % (p, REP[k])], None))
 
     def one(j):
@@ -181,7 +176,7 @@ def render(obs):
            "From Coq Require Import List String.", "From Miller Require Import C08.Model.", "Import ListNotations.", "Local Open Scope string_scope.",
            "(* (operator, kind of a, kind of b, result: CArg 1 = a, CArg 2 = b, CPanic = something else) *)",
            "Definition gen_coalesce : list (string * kind * kind * cls) := ["]
-    cl = {"Arg1": "CArg 1", "Arg2": "CArg 2", "Both": "CArg 1"}
+    cl = {"Arg1": "CArg 1", "Arg2": "CArg 2"}
     out.append(";\n".join(" (%s, %s, %s, %s)" % (coq_str(op), KCOQ[a], KCOQ[b], cl.get(c, "CPanic")) for (op, a, b), c in obs["coalesce"].items()) + "].")
     out.append("(* one-argument built-in function applied to an absent argument: kind of the result (None: a kind name this model does not know) *)")
     out.append("Definition gen_fn1_absent : list (string * option kind) := [")
@@ -201,13 +196,17 @@ def rule_failures(obs, table):
     bad = []
     for (op, a, b), c in obs["coalesce"].items():
         want = "Arg2" if (a == "absent" or (op == "???" and a == "void")) else "Arg1"
-        if c != want and not (c == "Both"):
+        if c != want:
             bad.append({"class": "unlisted:coalesce:%s:%s:%s" % (op, a, b), "input": {"mlr": "mlr -n put 'end{print (%s) %s (%s)}'" % (REP[a], op, RHS_REP[b])},
                         "observed": c, "expected": "the %s operand" % ("right" if want == "Arg2" else "left"), "theorem": "C08_coalescing_operators_over_all_kinds"})
     for f in ABSENT_OUT_1:
         if obs["fn1"].get(f) != "absent":
             bad.append({"class": "unlisted:function_of_absent:%s" % f, "input": {"mlr": "mlr -n put 'end{print typeof(%s(@nosuch))}'" % f},
                         "observed": obs["fn1"].get(f), "expected": "absent", "theorem": "C08_functions_of_absent_are_absent"})
+    for f, k in obs["fn1"].items():
+        if k not in ("absent", "error") and not f.startswith("is_") and FN1_OTHER.get(f) != k:
+            bad.append({"class": "unlisted:function_of_absent_kind:%s" % f, "input": {"mlr": "mlr -n put 'end{print typeof(%s(@nosuch))}'" % f},
+                        "observed": k, "expected": "absent or error (or the listed exception)", "theorem": "C08_one_argument_functions_of_absent_classified"})
     for f, n in ABSENT_OUT_N:
         if obs["fnn"].get(f) != "absent":
             bad.append({"class": "unlisted:function_of_absent:%s" % f, "input": {"mlr": "mlr -n put 'end{print typeof(%s(@nosuch, ...))}'" % f},
